@@ -86,6 +86,7 @@ func C12(run *hx.Run) {
 	}
 	wg.Wait()
 	c12Splice(run)
+	c12MasterRow(run)
 	if run.Seen("op_kind", "IndexedSelect") == 0 || run.Seen("op_kind", "Select") == 0 {
 		run.Inconclusive("operation catalogue lacks Select/IndexedSelect")
 	}
@@ -339,6 +340,110 @@ func c12Splice(run *hx.Run) {
 						run.Violation(key+"/silent", fmt.Sprintf("index %s still holds entries of deleted rows (page size %d): IndexedSelect returned err=nil but %s", ix.Name, ps, bad), hx.M{"index": ix.Name, "page_size": ps})
 					} else {
 						run.See("splice_outcome", "success-and-consistent")
+					}
+				}
+			}
+		}
+	}
+}
+
+// c12MasterRow: one sqlite_master row is damaged so that it still decodes as a five-column record but one of
+// its columns has the wrong storage class (the name or the table name stored as a BLOB, the root page as TEXT).
+// The schema cannot be trusted then: listing the tables either fails, or still names every table SQLite's
+// intact copy has - a listing that silently lacks the damaged table hides rows without any error.
+func c12MasterRow(run *hx.Run) {
+	o := mustOracle(run)
+	if o == nil {
+		return
+	}
+	defer o.Close()
+	dir, cleanup := hx.ScratchDir("C12master")
+	defer cleanup()
+	for ci, ps := range []int{512, 4096} {
+		d, err := hx.BuildDB(o, dir, fmt.Sprintf("m%d", ci), hx.M{"page_size": ps, "rows": 30, "features": []string{"plain", "alias", "wr"}}, run.Seed*29+int64(ci))
+		if err != nil {
+			run.Inconclusive("master-row corpus: " + err.Error())
+			return
+		}
+		img, _ := os.ReadFile(d.Path)
+		var all []string
+		for _, t := range d.Meta.Tables {
+			all = append(all, hx.FoldName(t.Name))
+		}
+		pages, err := hx.WalkTree(img, ps, 1)
+		if err != nil {
+			run.Inconclusive("master-row walk: " + err.Error())
+			continue
+		}
+		for _, pg := range pages {
+			if pg.Kind != 0x0d {
+				continue
+			}
+			for ci2, c := range pg.Cells {
+				if c.OvflOff != 0 || c.LocalLen < 8 {
+					continue
+				}
+				po := (pg.No-1)*ps + c.LocalOff
+				// record: header-size varint (1 byte for these small records), then one serial type per column
+				hs := int(img[po])
+				if hs < 6 || hs > 40 || img[po]&0x80 != 0 {
+					continue
+				}
+				// serial types of the five columns (each may be a 1- or 2-byte varint)
+				off := po + 1
+				var stOff, stLen []int
+				for k := 0; k < 5 && off < po+hs; k++ {
+					n := 1
+					if img[off]&0x80 != 0 {
+						n = 2
+					}
+					stOff = append(stOff, off)
+					stLen = append(stLen, n)
+					off += n
+				}
+				if len(stOff) != 5 {
+					continue
+				}
+				for _, col := range []int{1, 2} { // name, tbl_name: TEXT (odd serial type >= 13) -> BLOB of the same bytes (even, one less)
+					if stLen[col] != 1 || img[stOff[col]] < 13 || img[stOff[col]]%2 == 0 {
+						continue
+					}
+					mut := append([]byte{}, img...)
+					mut[stOff[col]]--
+					p := hx.NewMemPager(mut)
+					h, err := openMem(p)
+					run.Eval(1)
+					run.Distinct(fmt.Sprintf("master-row/%d/%d/%d/%d", ps, pg.No, ci2, col))
+					if err != nil {
+						run.See("damaged_master_row", "refused at open")
+						continue
+					}
+					var ts []string
+					var terr error
+					if pn, pm := safely(func() {
+						if err := h.low.RLock(); err != nil {
+							terr = err
+							return
+						}
+						defer h.low.RUnlock()
+						ts, terr = h.low.Tables()
+					}); pn {
+						run.Violation("C12/master-row-wrong-class/panic", firstLines(pm, 2), nil)
+						continue
+					}
+					if terr != nil {
+						run.See("damaged_master_row", "Tables() reports an error")
+						continue
+					}
+					have := map[string]bool{}
+					for _, t := range ts {
+						have[hx.FoldName(t)] = true
+					}
+					for _, want := range all {
+						if !have[want] {
+							run.Violation("C12/master-row-wrong-class/table-silently-missing", fmt.Sprintf("page size %d: sqlite_master row %d of page %d has its %s column stored as a BLOB; Tables() returns %v without an error - table %q is missing from it", ps, ci2, pg.No, []string{"type", "name", "tbl_name", "rootpage", "sql"}[col], ts, want), nil)
+							break
+						}
 					}
 				}
 			}
